@@ -4,6 +4,7 @@ import (
 	"fmt"
 	"go/token"
 	"go/types"
+	"os"
 	"sort"
 	"strings"
 
@@ -38,6 +39,9 @@ func collectAccess(fn *ssa.Function, roots []ssa.Value, acc *fieldAccess, seen m
 		return
 	}
 	seen[key] = true
+	if os.Getenv("VERIF_DBG_C06") != "" {
+		fmt.Fprintf(os.Stderr, "DBG visit %s depth=%d\n", fn.String(), depth)
+	}
 	derived := map[ssa.Value]bool{}
 	for _, r := range roots {
 		derived[r] = true
@@ -63,6 +67,14 @@ func collectAccess(fn *ssa.Function, roots []ssa.Value, acc *fieldAccess, seen m
 						if _, isPtr := x.Type().Underlying().(*types.Pointer); isPtr {
 							derived[v] = true
 							changed = true
+						}
+					} else if al, ok := x.X.(*ssa.Alloc); ok && al.Referrers() != nil {
+						// the receiver spilled into a cell because a closure captures it: a load of the cell is the receiver
+						for _, u := range *al.Referrers() {
+							if st, ok := u.(*ssa.Store); ok && st.Addr == ssa.Value(al) && derived[st.Val] {
+								derived[v] = true
+								changed = true
+							}
 						}
 					}
 				case *ssa.Phi:
@@ -130,7 +142,7 @@ func collectAccess(fn *ssa.Function, roots []ssa.Value, acc *fieldAccess, seen m
 }
 
 func checkC06(c *core.Ctx, r *core.Report) {
-	r.Explanation = "[(7) BATCHSTART — a processor field that the per-row loop of Process carries from row to row is not re-initialised to a fixed value at the start of Process] [ORDER (shared with C05) — every compareValues call sits inside a whole loop over the sort elements] [ACCUM — every min/max fold into a struct field reads the field it writes (a running extreme is not recomputed from another field)] C06 (pipeline commands mean the same however the stream is chunked), replay precondition only: when a two-pass command finishes its first pass every upstream processor is rewound and must start from its initial state. " +
+	r.Explanation = "[(8) DEADSTATE — a numeric processor field that is advanced from its own value (a running counter such as the position in the stream) is read by code other than its own update] [(7) BATCHSTART — a processor field that the per-row loop of Process carries from row to row is not re-initialised to a fixed value at the start of Process] [ORDER (shared with C05) — every compareValues call sits inside a whole loop over the sort elements] [ACCUM — every min/max fold into a struct field reads the field it writes (a running extreme is not recomputed from another field)] C06 (pipeline commands mean the same however the stream is chunked), replay precondition only: when a two-pass command finishes its first pass every upstream processor is rewound and must start from its initial state. " +
 		"(1) REWIND — for every type implementing the package's `processor` interface, each field of the processor (or of the options object it points to) that the Process cone both writes and reads (cross-batch state) is re-assigned in the Rewind cone, unless the type is cached-final (GetFinalResultIfExists can return true: it replays its stored result) or a two-pass accumulator (Rewind sets a flag that Process reads), or the field is a memo whose stored value does not depend on the input batch (compiled regular expressions); " +
 		"(4) the same for the DataProcessor wrapper itself (its merge counters are value fields of the wrapper: they must be reset on the wrapper's own copy); " +
 		"(5) in the head command every comparison or subtraction that involves the configured row limit also involves the count of rows already sent; " +
@@ -360,6 +372,7 @@ func checkC06(c *core.Ctx, r *core.Report) {
 	}
 
 	c06BatchStart(c, r, impls, method)
+	c06DeadState(c, r, impls)
 
 	// ---------------------------------------------------------------- (6) where the parallel section of a chain ends
 	{
@@ -529,8 +542,17 @@ func checkC06(c *core.Ctx, r *core.Report) {
 			dpExceptions := map[string]string{
 				"finishedFirstPass": "remembers that the first pass is over; it is what makes the rewind happen once and must survive it",
 			}
+			if os.Getenv("VERIF_DBG_C06") != "" {
+				for f, in := range fa.writes {
+					_, rd := fa.reads[f]
+					fmt.Fprintf(os.Stderr, "DBG wrapper write %s at %s read=%v own=%v\n", f.Name(), c.Pos(in.Pos()), rd, own[f])
+				}
+			}
 			var state []*types.Var
 			for f := range fa.writes {
+				if _, isChan := f.Type().Underlying().(*types.Chan); isChan {
+					continue // a channel field is plumbing between the fetch goroutines, created once: its identity is not replay state
+				}
 				if _, ok := fa.reads[f]; ok && own[f] {
 					state = append(state, f)
 				}
@@ -963,4 +985,123 @@ func c06BatchStart(c *core.Ctx, r *core.Report, impls []*types.Named, method fun
 		}
 	}
 	r.Floor("LIVE", "row-carried processor fields", n, 3)
+}
+
+// c06DeadState — (8) DEADSTATE: a counter that a pipeline command advances from row to row (a field of the processor
+// updated from its own previous value, like streamstats' position in the stream) exists to be consulted: it is what
+// makes the second batch continue where the first one stopped.  If no code reads it any more except its own update,
+// the command has started to use something else in its place — typically the position inside the current batch —
+// and its output depends on where the stream was cut.  For every field of a processor type that some method
+// updates from its own value, there is a read of it, somewhere in the repository, that is not part of such an
+// update.
+func c06DeadState(c *core.Ctx, r *core.Report, impls []*types.Named) {
+	isImpl := map[*types.Named]bool{}
+	for _, n := range impls {
+		isImpl[n] = true
+	}
+	type info struct {
+		owner      *types.Named
+		selfUpdate ssa.Instruction
+		consulted  bool
+	}
+	fields := map[*types.Var]*info{}
+	ownerOf := func(fa *ssa.FieldAddr) *types.Named {
+		pt, ok := fa.X.Type().Underlying().(*types.Pointer)
+		if !ok {
+			return nil
+		}
+		n, _ := pt.Elem().(*types.Named)
+		if n == nil || !isImpl[n] {
+			return nil
+		}
+		return n
+	}
+	// feedsOnlyOwnStore: every use of the loaded value ends in a store to the same field (through arithmetic)
+	var feedsOnlyOwnStore func(v ssa.Value, f *types.Var, depth int) bool
+	feedsOnlyOwnStore = func(v ssa.Value, f *types.Var, depth int) bool {
+		refs := v.Referrers()
+		if refs == nil || len(*refs) == 0 || depth > 3 {
+			return depth <= 3
+		}
+		for _, u := range *refs {
+			switch x := u.(type) {
+			case *ssa.DebugRef:
+			case *ssa.BinOp:
+				if !feedsOnlyOwnStore(x, f, depth+1) {
+					return false
+				}
+			case *ssa.Convert:
+				if !feedsOnlyOwnStore(x, f, depth+1) {
+					return false
+				}
+			case *ssa.Store:
+				fa, ok := x.Addr.(*ssa.FieldAddr)
+				if !ok || core.FieldOfAddr(fa) != f || x.Val != v {
+					return false
+				}
+			default:
+				return false
+			}
+		}
+		return true
+	}
+	for _, fn := range c.RepoFunctions() {
+		for _, b := range fn.Blocks {
+			for _, in := range b.Instrs {
+				ld, ok := in.(*ssa.UnOp)
+				if !ok || ld.Op != token.MUL {
+					continue
+				}
+				fa, ok := ld.X.(*ssa.FieldAddr)
+				if !ok {
+					continue
+				}
+				owner := ownerOf(fa)
+				if owner == nil {
+					continue
+				}
+				f := core.FieldOfAddr(fa)
+				if b, ok := f.Type().Underlying().(*types.Basic); !ok || b.Info()&types.IsNumeric == 0 {
+					continue
+				}
+				if fields[f] == nil {
+					fields[f] = &info{owner: owner}
+				}
+				if feedsOnlyOwnStore(ld, f, 0) {
+					if refs := ld.Referrers(); refs != nil && len(*refs) > 0 && fields[f].selfUpdate == nil {
+						fields[f].selfUpdate = ld
+					}
+				} else {
+					fields[f].consulted = true
+				}
+			}
+		}
+	}
+	var list []*types.Var
+	for f, i := range fields {
+		if i.selfUpdate != nil {
+			list = append(list, f)
+		}
+	}
+	sort.Slice(list, func(i, j int) bool {
+		if fields[list[i]].owner.Obj().Name() != fields[list[j]].owner.Obj().Name() {
+			return fields[list[i]].owner.Obj().Name() < fields[list[j]].owner.Obj().Name()
+		}
+		return list[i].Name() < list[j].Name()
+	})
+	for _, f := range list {
+		i := fields[f]
+		construct := fmt.Sprintf("%s:running-counter(%s)-is-consulted", i.owner.Obj().Name(), f.Name())
+		if i.owner.Obj().Name() == "inputlookupProcessor" && f.Name() == "numprocessed" && !i.consulted {
+			// one named exception: inputlookup is a generating command, not one of the transforming commands C06
+			// quantifies over.  (The counter IS dead on the pinned tree, with a visible effect that no property
+			// covers: `inputlookup max=N` compares N with the rows read in the current call, so with N above the
+			// 100-row fetch size every fetch returns another 100 rows until the file ends — DESIGN.md §5.4.)
+			r.Assume("LIVE", construct, c.Pos(i.selfUpdate.Pos()), "inputlookup is a generating command outside C06's list of transforming commands; its dead row counter is recorded as an observation (max=N is compared with the per-fetch count), not judged here")
+			continue
+		}
+		r.Check(i.consulted, "LIVE", construct, c.Pos(i.selfUpdate.Pos()), "the counter is read by code other than its own update",
+			fmt.Sprintf("%s.%s is advanced from its own value but nothing reads it any more: whatever replaced it (the position inside the current batch, a per-call value) starts again at every batch, so the command's output depends on where the stream was cut into batches", i.owner.Obj().Name(), f.Name()))
+	}
+	r.Floor("LIVE", "running counters of pipeline processors", len(list), 2)
 }
